@@ -48,9 +48,73 @@ pub struct Case {
     pub idx: (u8, u8, u8),
     /// inner derivative parts for the *Inner drivers
     pub inner: Vec<f64>,
+    /// 0: the function is the generated DAG at a moderate point; otherwise the selector of a
+    /// wide-magnitude template evaluated at a point whose coordinates are all of size 10^e
+    #[serde(default)]
+    pub wide: u8,
+    #[serde(default)]
+    pub wu: f64,
 }
 
 pub struct C05;
+
+/// Wide-magnitude cases: every coordinate of the point is m_i * 10^e with one common exponent e uniform
+/// in +-300/(d+1) (d the derivative order of the driver), and the function is built from quotients,
+/// products and one elementary function of the variables, so that all true partial derivatives are
+/// representable while squares and cubes of the coordinates are not necessarily.
+fn wide_setup(case: &Case, nvar: usize, m: usize, d: usize) -> (Vec<f64>, Program) {
+    use ndv_oracle::taylor::Fun;
+    const FUNS: [Fun; 6] = [Fun::Recip, Fun::Sqrt, Fun::Cbrt, Fun::Ln, Fun::Atan, Fun::Asinh];
+    let sel = case.wide as usize;
+    let f = FUNS[sel % 6];
+    let positive = matches!(f, Fun::Sqrt | Fun::Ln);
+    // plain quotient of two variables (all outputs): first order over the whole range of f64 (the partial
+    // derivatives are of size 10^-e), higher orders while 1/b^(d+1) is representable; templates with an inner function or a second quotient: its own derivatives
+    // enter squared or cubed (chain / quotient rule of order d), exponent range 300/(2d+2) (d = 1: 300/2)
+    let plain_quotient = (sel / 8) % 2 == 0;
+    let l = if plain_quotient && d == 1 {
+        290.0
+    } else if plain_quotient {
+        300.0 / (d as f64 + 1.0) - 1.0
+    } else if d == 1 {
+        149.0
+    } else {
+        300.0 / (2.0 * d as f64 + 2.0) - 1.0
+    };
+    let e = -l + 2.0 * l * case.wu.clamp(0.0, 1.0);
+    let x: Vec<f64> = (0..nvar)
+        .map(|i| {
+            let t = case.x[i % case.x.len()] + 0.125 * (i / case.x.len()) as f64;
+            let t = if t.abs() < 0.1 { 1.5 + i as f64 } else { t };
+            (if positive { t.abs() } else { t }) * 10f64.powf(e)
+        })
+        .collect();
+    let mut ops: Vec<Op> = (0..nvar).map(Op::Input).collect();
+    let mut outs = vec![];
+    for o in 0..m {
+        let (a, b, c2) = (o % nvar, (o + 1) % nvar, (o + 2) % nvar);
+        match if plain_quotient { 0 } else { 1 + (sel / 16 + o) % 3 } {
+            0 => ops.push(Op::Bin(Bin::Div, if o % 2 == 0 { Form::Owned } else { Form::RefRhs }, a, b)),
+            1 => {
+                ops.push(Op::Un(f.name().to_string(), a));
+                let g = ops.len() - 1;
+                ops.push(Op::Bin(Bin::Mul, Form::Owned, g, b));
+            }
+            2 => {
+                ops.push(Op::Un(f.name().to_string(), a));
+                let g = ops.len() - 1;
+                ops.push(Op::Bin(Bin::Div, Form::RefRhs, b, g));
+            }
+            _ => {
+                ops.push(Op::Bin(Bin::Div, Form::Owned, a, c2));
+                let q = ops.len() - 1;
+                ops.push(Op::Bin(Bin::Mul, Form::Owned, q, b));
+            }
+        }
+        outs.push(ops.len() - 1);
+    }
+    (x, Program { n_inputs: nvar, ops, outs })
+}
 
 /// static sizes instantiated
 const STATIC_N: [usize; 5] = [1, 2, 3, 4, 6];
@@ -86,7 +150,7 @@ impl<'a> Ctx<'a> {
     }
     fn cmp(&mut self, lib: f64, r: R, part: &str) -> Result<(), Verdict> {
         let u = <f64 as Flt>::U;
-        let tol = K * u * r.e + <f64 as Flt>::FLOOR;
+        let tol = K * u * r.e + floor_of::<f64>();
         let d = (lib - r.v).abs();
         if r.e > 0.0 {
             self.worst = self.worst.max(d / (u * r.e));
@@ -102,7 +166,7 @@ impl<'a> Ctx<'a> {
     }
 }
 
-fn mono(ng: usize, picks: &[(usize, usize)]) -> Mono {
+pub(crate) fn mono(ng: usize, picks: &[(usize, usize)]) -> Mono {
     let mut m = vec![0u8; ng];
     for (g, d) in picks {
         m[*g] = *d as u8;
@@ -111,7 +175,7 @@ fn mono(ng: usize, picks: &[(usize, usize)]) -> Mono {
 }
 
 /// reference evaluation: inputs seeded with the given monomials (coefficient 1 each)
-fn ref_eval(prog: &Program, sizes: &[usize], x: &[f64], seeds: &[Vec<Mono>], extra: &[(usize, Mono, f64)]) -> Option<(std::sync::Arc<Alg>, Vec<Jet>)> {
+pub(crate) fn ref_eval(prog: &Program, sizes: &[usize], x: &[f64], seeds: &[Vec<Mono>], extra: &[(usize, Mono, f64)]) -> Option<(std::sync::Arc<Alg>, Vec<Jet>)> {
     let alg = Alg::new(sizes);
     let mut ins = vec![];
     for (i, xi) in x.iter().enumerate() {
@@ -502,9 +566,32 @@ fn check_case(case: &Case, st: &mut Stats) -> Verdict {
         Driver::PartialHessian => (snap(case.n, dynamic, true), snap(case.n2, dynamic, true), 1),
     };
     let nvar = n + n2;
-    let x: Vec<f64> = (0..nvar).map(|i| case.x[i % case.x.len()] + 0.125 * (i / case.x.len()) as f64).collect();
+    let mut x: Vec<f64> = (0..nvar).map(|i| case.x[i % case.x.len()] + 0.125 * (i / case.x.len()) as f64).collect();
     // the function: one shared DAG, the last m nodes are the outputs
     let (mut prog, _) = if nvar == 0 { resolve(&[0.0], &case.raw, m) } else { resolve(&x, &case.raw, m) };
+    let wide = case.wide != 0 && nvar > 0;
+    struct Reset;
+    impl Drop for Reset {
+        fn drop(&mut self) {
+            FLOOR_OVERRIDE.with(|c| c.set(None));
+        }
+    }
+    let _reset = Reset;
+    if wide {
+        // derivative order of the driver; the *Inner drivers nest dual numbers (order counts twice + 1)
+        let d = match case.driver {
+            Driver::First | Driver::Gradient | Driver::Jacobian => 1,
+            Driver::Second | Driver::Hessian | Driver::SecondPartial | Driver::PartialHessian => 2,
+            Driver::Third | Driver::ThirdPartial | Driver::ThirdPartialVec => 3,
+            Driver::FirstInner | Driver::GradientInner => 5,
+            Driver::SecondInner => 7,
+        };
+        let (wx, wp) = wide_setup(case, nvar, m, d);
+        x = wx;
+        prog = wp;
+        FLOOR_OVERRIDE.with(|c| c.set(Some(crate::c01::WIDE_FLOOR)));
+        st.class("wide-magnitude point and template function");
+    }
     if nvar == 0 {
         // a function of zero variables must not use its dummy input: make every output a constant
         let k = prog.ops.len();
@@ -684,24 +771,25 @@ impl Property for C05 {
             proptest::collection::vec(raw_op(), 2..=max_nodes),
             (any::<u8>(), any::<u8>(), any::<u8>()),
             proptest::collection::vec(part_value(), 2),
+            (prop_oneof![9 => Just(0u8), 1 => 1u8..=255], 0.0f64..1.0),
         )
-            .prop_map(|((driver, try_variant, fail, err, dynamic), (n, n2, m), x, raw, idx, inner)| Case { driver, try_variant, fail: fail && try_variant, err, dynamic, n, n2, m, x, raw, idx, inner })
+            .prop_map(|((driver, try_variant, fail, err, dynamic), (n, n2, m), x, raw, idx, inner, (wide, wu))| Case { driver, try_variant, fail: fail && try_variant, err, dynamic, n, n2, m, x, raw, idx, inner, wide, wu })
             .boxed()
     }
     fn check(case: &Case, st: &mut Stats) -> Verdict {
-        if case.x.is_empty() || case.raw.is_empty() || case.inner.is_empty() || case.x.iter().any(|x| !x.is_finite() || x.abs() > 1e3) || case.raw.iter().any(|r| !r.k.is_finite() || r.k.abs() > 1.0) || case.inner.iter().any(|x| !x.is_finite()) {
+        if case.x.is_empty() || case.raw.is_empty() || case.inner.is_empty() || case.x.iter().any(|x| !x.is_finite() || x.abs() > 1e3) || case.raw.iter().any(|r| !r.k.is_finite() || r.k.abs() > 1.0) || case.inner.iter().any(|x| !x.is_finite()) || !case.wu.is_finite() {
             return Verdict::Trivial("malformed case");
         }
         check_case(case, st)
     }
     fn cases(tier: Tier) -> u64 {
         match tier {
-            Tier::Quick => 60_000,
-            Tier::Thorough => 3_000_000,
+            Tier::Quick => 400_000,
+            Tier::Thorough => 30_000_000,
         }
     }
     fn rule() -> String {
-        "generated: functions R^n -> R^m as one shared expression DAG (C03 opcodes) whose last m nodes are the outputs, n in 0..6, m in 1..6, static instantiations for n, m in {1,2,3,4,6} (all 25 (n,m) combinations for jacobian and partial_hessian) and dynamic storage for every size incl. n = 0; the point; all 20 drivers (10 + their try_ variants), third_partial_derivative_vec with generated index triples incl. repeated indices, first/second derivative and gradient also with dual numbers inside (T = Dual64). Oracle: the partial derivatives read off the reference algebra seeded with unit generators exactly as the documentation describes (gradient[i] = e_i coefficient, jacobian[(i,j)] = e_j coefficient of output i, hessian/partial_hessian[(i,j)] = a_i b_j coefficient, the 4/8 tuples), tolerance 32 u e; shapes; try_ variants return Err(e) with exactly the generated e when the closure fails and bit-identical values otherwise. Non-trivial: >= 2 variables and all compared reference values pairwise distinct (so a transposed / swapped / mis-seeded result cannot coincide), or a failing closure.".into()
+        "generated: functions R^n -> R^m as one shared expression DAG (C03 opcodes) whose last m nodes are the outputs, n in 0..6, m in 1..6, static instantiations for n, m in {1,2,3,4,6} (all 25 (n,m) combinations for jacobian and partial_hessian) and dynamic storage for every size incl. n = 0; the point (one case in ten: a wide-magnitude point, every coordinate m_i*10^e with e uniform in +-300/(d+1), with a template function of quotients, products and one elementary function); all 20 drivers (10 + their try_ variants), third_partial_derivative_vec with generated index triples incl. repeated indices, first/second derivative and gradient also with dual numbers inside (T = Dual64). Oracle: the partial derivatives read off the reference algebra seeded with unit generators exactly as the documentation describes (gradient[i] = e_i coefficient, jacobian[(i,j)] = e_j coefficient of output i, hessian/partial_hessian[(i,j)] = a_i b_j coefficient, the 4/8 tuples), tolerance 32 u e; shapes; try_ variants return Err(e) with exactly the generated e when the closure fails and bit-identical values otherwise. Non-trivial: >= 2 variables and all compared reference values pairwise distinct (so a transposed / swapped / mis-seeded result cannot coincide), or a failing closure.".into()
     }
     fn assumptions() -> Vec<String> {
         vec!["static sizes limited to {1,2,3,4,6}; dynamic 0..6".into()]
